@@ -57,6 +57,12 @@ Theorem C06_set_ops : forall s t x,
   (In x (set_union s t) <-> In x s \/ (In x t /\ set_contains s x = false)).
 Proof. intros s t x. split; [exact (intersection_spec s t x) | exact (union_spec s t x)]. Qed.
 
+(* intersection and union return each element once, whatever the repetitions
+   in the operands (a set literal may repeat an element) *)
+Theorem C06_set_ops_no_repeats : forall s t,
+  NoDup (set_intersect s t) /\ NoDup (set_union s t).
+Proof. intros s t. exact (conj (intersection_NoDup s t) (union_NoDup s t)). Qed.
+
 Theorem C06_string_ops : forall s p,
   (has_prefix s p = true <-> exists r, s = p ++ r) /\
   (has_suffix s p = true <-> exists r, s = r ++ p) /\
@@ -104,6 +110,7 @@ Print Assumptions C06_well_typed_result.
 Print Assumptions C06_result_type.
 Print Assumptions C06_unary_table.
 Print Assumptions C06_set_ops.
+Print Assumptions C06_set_ops_no_repeats.
 Print Assumptions C06_string_ops.
 Print Assumptions C06_postfix.
 Print Assumptions C06_ok_is_postfix.
